@@ -620,8 +620,43 @@ func runC20(c *Ctx) {
 			}
 			return true
 		})
+		// the backslash test must not be narrowed: a conjunct next to it means only SOME escapes are consumed
+		// as a pair, while the SQL scanner consumes a backslash with whatever follows it
+		narrowed := token.NoPos
+		ast.Inspect(f.Decl.Body, func(x ast.Node) bool {
+			be, ok := x.(*ast.BinaryExpr)
+			if !ok || be.Op != token.LAND {
+				return true
+			}
+			var hasBS func(e ast.Expr) bool
+			hasBS = func(e ast.Expr) bool {
+				if b2, ok := ast.Unparen(e).(*ast.BinaryExpr); ok {
+					if b2.Op == token.EQL && (isBackslash(b2.X) || isBackslash(b2.Y)) {
+						return true
+					}
+					if b2.Op == token.LAND {
+						return hasBS(b2.X) || hasBS(b2.Y)
+					}
+				}
+				return false
+			}
+			if hasBS(be) {
+				// `quote != 0 && c == '\\'` (state test) is fine; a test of the NEXT character is a narrowing
+				ast.Inspect(be, func(y ast.Node) bool {
+					if ix, ok := y.(*ast.IndexExpr); ok {
+						if b3, ok := ast.Unparen(ix.Index).(*ast.BinaryExpr); ok && b3.Op == token.ADD {
+							narrowed = be.Pos()
+						}
+					}
+					return true
+				})
+			}
+			return true
+		})
 		key := f.Name + "|escape-consumes-next"
 		switch {
+		case narrowed.IsValid():
+			c.Fail("C20.1", key, narrowed, "the split consumes a backslash together with the next character only for some next characters: `\\\\` in front of a closing quote is then read as a backslash followed by an escaped quote, the literal stays open and the terminating ';' is swallowed — the SQL scanner consumes every escape pair")
 		case lookBehind.IsValid():
 			c.Fail("C20.1", key, lookBehind, "the split decides whether a quote is escaped by looking at the character BEFORE it: for a literal that ends in an escaped backslash ('C:\\\\') the closing quote is taken for an escaped one, the literal stays open and the terminating ';' is swallowed — the SQL scanner consumes escape pairs left to right")
 		case consumes:
